@@ -632,6 +632,16 @@ func normCond(cond ssa.Value) (a Atom, pos bool) {
 				continue
 			}
 		case *ssa.BinOp:
+			// b == true, b != false, true == b ...: the boolean itself
+			if x.Op == token.EQL || x.Op == token.NEQ {
+				if bv, other, ok := boolConstOperand(x); ok {
+					if (x.Op == token.EQL) != bv {
+						pos = !pos
+					}
+					cond = other
+					continue
+				}
+			}
 			switch x.Op {
 			case token.EQL:
 				return Atom{token.EQL, x.X, x.Y}, pos
@@ -649,6 +659,69 @@ func normCond(cond ssa.Value) (a Atom, pos bool) {
 		}
 		return Atom{token.ILLEGAL, cond, nil}, pos
 	}
+}
+
+// boolIs: v is the boolean cond, either the value itself or a flag that receives
+// the constant true exactly over cond's true edge and false over its false edge
+// (if cond { v = true } else { v = false }).
+func boolIs(v, cond ssa.Value) bool {
+	if v == nil {
+		return false
+	}
+	v = strip(v)
+	if v == cond {
+		return true
+	}
+	ph, ok := v.(*ssa.Phi)
+	if !ok {
+		return false
+	}
+	for i, e := range ph.Edges {
+		k, isC := e.(*ssa.Const)
+		if !isC || k.Value == nil || k.Value.Kind() != constant.Bool {
+			return false
+		}
+		want := constant.BoolVal(k.Value)
+		to, pred := ph.Block(), ph.Block().Preds[i]
+		decided := false
+		for steps := 0; steps < 8; steps++ {
+			if ifi, isIf := pred.Instrs[len(pred.Instrs)-1].(*ssa.If); isIf {
+				a, pos := normCond(ifi.Cond)
+				if a.Op == token.ILLEGAL && a.X == cond {
+					idx := 0
+					if want != pos {
+						idx = 1
+					}
+					decided = pred.Succs[idx] == to && pred.Succs[1-idx] != to
+				}
+				break
+			}
+			if len(pred.Preds) != 1 {
+				break
+			}
+			to, pred = pred, pred.Preds[0]
+		}
+		if !decided {
+			return false
+		}
+	}
+	return true
+}
+
+// boolConstOperand: one operand of the comparison is a boolean constant.
+func boolConstOperand(x *ssa.BinOp) (val bool, other ssa.Value, ok bool) {
+	for i, op := range []ssa.Value{x.X, x.Y} {
+		k, isC := op.(*ssa.Const)
+		if !isC || k.Value == nil || k.Value.Kind() != constant.Bool {
+			continue
+		}
+		other = x.Y
+		if i == 1 {
+			other = x.X
+		}
+		return constant.BoolVal(k.Value), other, true
+	}
+	return false, nil, false
 }
 
 // Edge is a CFG edge: successor index idx of block From.
@@ -770,6 +843,12 @@ func multiConds(fn *ssa.Function) map[ssa.Value]bool {
 // for which blocked is true (a goal block is reported before blocked applies
 // only if goalFirst).
 func psSearch(start *ssa.BasicBlock, cut []Edge, blocked func(*ssa.BasicBlock) bool, goal func(*ssa.BasicBlock) bool) []*ssa.BasicBlock {
+	return psSearchState(start, cut, blocked, func(b *ssa.BasicBlock, _ map[ssa.Value]bool) bool { return goal(b) })
+}
+
+// psSearchState is psSearch with a goal that may also inspect the outcomes known
+// on the path (conditions taken, constants and nil-ness that phis received).
+func psSearchState(start *ssa.BasicBlock, cut []Edge, blocked func(*ssa.BasicBlock) bool, goal func(*ssa.BasicBlock, map[ssa.Value]bool) bool) []*ssa.BasicBlock {
 	fn := start.Parent()
 	multi := multiConds(fn)
 	isCut := map[Edge]bool{}
@@ -803,7 +882,7 @@ func psSearch(start *ssa.BasicBlock, cut []Edge, blocked func(*ssa.BasicBlock) b
 		n := q[0]
 		q = q[1:]
 		b := n.b
-		if goal(b) && (blocked == nil || !blocked(b)) {
+		if goal(b, n.known) && (blocked == nil || !blocked(b)) {
 			var path []*ssa.BasicBlock
 			for x := n; x != nil; x = x.prev {
 				path = append(path, x.b)
